@@ -357,7 +357,20 @@ def _for_each(tree):
     raised = [ast.unparse(s.exc.func) for s in h.body if isinstance(s, ast.Raise) and isinstance(s.exc, ast.Call)]
     out += def_pairs("fieldIterHandler", [(ast.unparse(h.type) if h.type else "", ",".join(raised))],
                      "exhaustion ↦ recipe error")
-    # memorable: when is a fresh object built
+    # the state key of a call site: one key per parsed object, not per source position
+    sv_init = _method(tree, "StructuredValue", "__init__")
+    keys = [n for n in ast.walk(sv_init) if isinstance(n, ast.Assign) and len(n.targets) == 1
+            and ast.unparse(n.targets[0]) == "self.unique_context_identifier"]
+    if len(keys) != 1:
+        raise PinError("StructuredValue.__init__ no longer assigns self.unique_context_identifier exactly once")
+    out += def_str("callSiteKey", ast.unparse(keys[0].value), "state key of a function-block call site")
+    sv_render = _method(tree, "StructuredValue", "render")
+    first = _body(sv_render)[0]
+    out += def_str("callSiteKeyUse", ast.unparse(first), "render publishes the key to the context before the function is called")
+    simple = _method(tree, "SimpleValue", "render")
+    sk = [ast.unparse(n.value) for n in ast.walk(simple) if isinstance(n, ast.Assign) and len(n.targets) == 1
+          and ast.unparse(n.targets[0]) == "context.unique_context_identifier"]
+    out += def_strs("formulaKey", sk, "keys a formula publishes while it is rendered (set, then restored)")
     return out
 
 
